@@ -292,3 +292,83 @@ def variant_name(facts, adt_path, idx):
     if not a or not isinstance(idx, int) or idx >= len(a['variants']):
         return None
     return a['variants'][idx]['name']
+
+
+# ---------------------------------------------------------------- symbolic normalisation (E3)
+def rewrite(t, fn):
+    """Bottom-up rewrite of a term: fn(term) -> replacement or None."""
+    if not isinstance(t, tuple):
+        return t
+    new = []
+    for x in t:
+        if isinstance(x, tuple):
+            new.append(rewrite(x, fn))
+        elif isinstance(x, list):
+            new.append([rewrite(y, fn) if isinstance(y, tuple) else y for y in x])
+        elif isinstance(x, dict):
+            new.append({k: (rewrite(v, fn) if isinstance(v, tuple) else v) for k, v in x.items()})
+        else:
+            new.append(x)
+    t2 = tuple(new)
+    r = fn(t2)
+    return r if r is not None else t2
+
+
+def expand_vars(body, t, keep=()):
+    """Replace single-definition, non-parameter named locals by their definitions (for loop-free helpers)."""
+    def fn(x):
+        if x[0] == 'v' and x[1] not in keep and not (1 <= x[2] <= body.j['arg_count']):
+            y = body.def_term(x[2])
+            if y is not None and y != x:
+                return expand_vars(body, y, keep)
+        return None
+    return rewrite(t, fn)
+
+
+def atom(name):
+    return ('v', name, -1)
+
+
+def aff(t):
+    """Affine normal form as a canonical string."""
+    return affine_str(t)
+
+
+def cmp_norm(t):
+    """Canonical form of a comparison `a OP b`: ('cmp', OP', affine_str(a - b)) with OP' in {'<0','<=0','==0','!=0'}
+    after moving everything to one side and fixing the sign so that the first atom has a positive coefficient."""
+    if not (isinstance(t, tuple) and t[0] == 'op' and t[1] in ('Lt', 'Le', 'Gt', 'Ge', 'Eq', 'Ne')):
+        return None
+    op = t[1]
+    d = ('op', 'Sub', t[2], t[3])
+    c, m = affine(d)
+    keys = sorted(m)
+    neg = False
+    if keys:
+        neg = m[keys[0]][0] < 0
+    elif c < 0:
+        neg = True
+    if neg:
+        c = -c
+        m = {k: (-co, a) for k, (co, a) in m.items()}
+        op = {'Lt': 'Gt', 'Le': 'Ge', 'Gt': 'Lt', 'Ge': 'Le', 'Eq': 'Eq', 'Ne': 'Ne'}[op]
+    parts = []
+    for k in sorted(m):
+        co = m[k][0]
+        parts.append(('%+d*' % co if co not in (1, -1) else ('+' if co == 1 else '-')) + k)
+    if c or not parts:
+        parts.append('%+d' % c)
+    return ('cmp', op, ' '.join(parts))
+
+
+def cmp_true_when(t, env):
+    """Evaluate a canonical comparison under a total assignment of atoms (dict atom_str -> int)."""
+    import operator
+    ops = {'Lt': operator.lt, 'Le': operator.le, 'Gt': operator.gt, 'Ge': operator.ge, 'Eq': operator.eq, 'Ne': operator.ne}
+    c, m = affine(('op', 'Sub', t[2], t[3]))
+    v = c
+    for k, (co, a) in m.items():
+        if k not in env:
+            return None
+        v += co * env[k]
+    return ops[t[1]](v, 0)
